@@ -1,5 +1,6 @@
 import QV.Wire
 import QV.Shared.SchedWire
+import QV.Shared.HandlerWire
 import QV.C23.Spec
 /-! Driver side of the C23 correspondence check. -/
 namespace QV.C23
@@ -91,6 +92,11 @@ def handle (inp out : Sexp) : CaseResult :=
   | .list [.atom "corpus", p] => handleProgram "corpus" p out
   | .list [.atom "table", p] => handleProgram "table" p out
   | .list [.atom "random", p] => handleProgram "random" p out
+  | .list [.atom "ast", instrs, sigs, real] =>
+    -- blocks and handler answers are computed from the AST by `HandlerFromAst`; `memSpecB` on those answers
+    -- means the memory clause over C27's SPEC sets (theorem `C23_ast_memSpec`)
+    HandlerWire.handleAst instrs sigs real out (fun _ _ b _ es => memSpecB b es)
+      (fun b => conflictingPair b.items) (fun b es => blockTags b ++ edgeTags es)
   | .list (.atom "mq" :: xs) =>
     match xs.mapM decAccess with
     | none => .bad s!"undecodable history {inp}"
